@@ -123,7 +123,7 @@ def check_functions(case, ctx):
             got = build.table_f(L, name, xi, fl)
             want = ref1 * _flagvec(fl)[:, None]
             err = np.abs(got - want)
-            tol = 1e-12 * S * np.maximum(_flagvec(np.abs(fl))[:, None], 1.0)
+            tol = 1e-12 * S * np.maximum(_flagvec(np.abs(fl))[:, None], 1.0) + 1e-290     # subnormal arguments: no relative accuracy
             ctx.metric(name + '.err/S', float(np.max(err[S > 0] / S[S > 0])))
             ctx.subchecks += 1
             if np.any(err > tol):
@@ -137,7 +137,7 @@ def check_functions(case, ctx):
             v = np.array(buf[:])
             s = build.table_f(L, name, xi[k:k + 1], fl)[:, 0]
             ctx.subchecks += 1
-            if not np.allclose(v, s, rtol=1e-13, atol=1e-13 * np.max(S[:, k])):
+            if not np.allclose(v, s, rtol=1e-13, atol=1e-13 * np.max(S[:, k]) + 1e-290):
                 i = int(np.argmax(np.abs(v - s)))
                 raise Violation('%s[i=%d]' % (vname, i), 'vec %r != scalar %r at xi=%r' % (v[i], s[i], xi[k]))
 
@@ -160,7 +160,7 @@ def check_functions_gen(case, ctx):
                 S = B.abs_scale(i, x, der) * max(1., abs(B.flag_of(i, fl)))
                 want = float(B.feval_exact(i, Fr(float(x)), der)) * B.flag_of(i, fl)
                 ctx.subchecks += 1
-                if abs(got[i, k] - want) > 1e-12 * S:
+                if abs(got[i, k] - want) > 1e-12 * S + 1e-290:        # floor: subnormal xi gives subnormal values
                     raise Violation('%s[i=%d]' % (name, i), 'xi=%r flags=%r got %r want %r' % (x, fl, got[i, k], want))
 
 
@@ -269,7 +269,7 @@ def check_sub12(case, ctx):
             S = scale12(kind, -1., 1.)
             ctx.subchecks += 1
             FL = np.outer(_flagvec(np.abs(fl[:4])), _flagvec(np.abs(fl[4:])))
-            bad = np.abs(a - b) > 2e-13 * S * np.maximum(FL, 1e-300)
+            bad = np.abs(a - b) > 2e-13 * S * np.maximum(FL, 1e-300) + 1e-280
             if np.any(bad):
                 i, j = np.argwhere(bad)[0]
                 raise Violation('whole-vs-full:%s[%d,%d]' % (name, i, j), '_12(-1,1)=%r full=%r' % (a[i, j], b[i, j]))
